@@ -27,7 +27,7 @@ type gCB struct {
 	unregs []where
 }
 
-type vset struct{ mprov, tprov, prop, meter, tracer, inst, cb []int }
+type vset struct{ mprov, tprov, prop, meter, tracer, inst, cb, ctx []int }
 
 func (v *vset) add(o vset) {
 	v.mprov = append(v.mprov, o.mprov...)
@@ -37,6 +37,7 @@ func (v *vset) add(o vset) {
 	v.tracer = append(v.tracer, o.tracer...)
 	v.inst = append(v.inst, o.inst...)
 	v.cb = append(v.cb, o.cb...)
+	v.ctx = append(v.ctx, o.ctx...)
 }
 
 type builder struct {
@@ -50,6 +51,7 @@ type builder struct {
 	cbs         []gCB
 	bits        map[string]int
 	nSpans      int
+	nCtx        int
 	readers     int
 	autoOn      bool
 	forceTD     bool
@@ -85,6 +87,11 @@ func (b *builder) mk(k string) Op {
 		return op
 	case "tprov":
 		op := Op{K: k, D: b.nTprov}
+		if cs := cat(b.vis.ctx, b.loc.ctx); len(cs) > 0 && rapid.Bool().Draw(b.t, "provider_from_saved_span") {
+			// the provider handle of a span the program held on to: of the span
+			// value, or of the span found in the context its Start returned
+			op.Px, op.TV = b.from("saved", cs)+1, rapid.IntRange(0, 1).Draw(b.t, "from_context")
+		}
 		b.loc.tprov = append(b.loc.tprov, b.nTprov)
 		b.nTprov++
 		return op
@@ -205,13 +212,38 @@ func (b *builder) mkSpan(tr int, ts []int) Op {
 		op.Kn = rapid.IntRange(1, 5).Draw(b.t, "span_kind")
 	}
 	op.At = rapid.Bool().Draw(b.t, "span_attribute_option")
+	// the context Start is given: background / a valid remote or local span
+	// context with any flags byte / a span context that is not valid / the
+	// context an earlier Start returned
+	pks := []int{0, 0, 0, 0, 1, 1, 2, 3}
+	cs := cat(b.vis.ctx, b.loc.ctx)
+	if len(cs) > 0 {
+		pks = append(pks, 4, 4)
+	}
+	switch op.Pk = rapid.SampledFrom(pks).Draw(b.t, "incoming_context"); op.Pk {
+	case 1, 2, 3:
+		op.Pf = rapid.SampledFrom([]int{1, 1, 0, 0, 3, 2, 255, -1}).Draw(b.t, "parent_flags")
+		if op.Pf < 0 {
+			op.Pf = rapid.IntRange(0, 255).Draw(b.t, "parent_flags_byte")
+		}
+	case 4:
+		op.Px = b.from("saved", cs) + 1
+	}
 	if !b.autoOn && (b.forceTD || rapid.IntRange(0, 5).Draw(b.t, "tracer_from_span") == 0) {
-		// a tracer obtained from the span's TracerProvider() (not generated
+		// a tracer obtained from the span's TracerProvider(): of the span value
+		// or of the span found in the context Start returned (not generated
 		// while auto-instrumentation may be attached: the span would be the
 		// agent's and so would its provider)
 		op.TD, op.S = len(b.tracerScope)+1, b.pick("scope", len(scopes))
+		op.TV = rapid.IntRange(0, 1).Draw(b.t, "from_context")
 		b.loc.tracer = append(b.loc.tracer, op.TD-1)
 		b.tracerScope = append(b.tracerScope, op.S)
+	}
+	if !b.autoOn && (b.forceTD || rapid.IntRange(0, 3).Draw(b.t, "keep_context") == 0) {
+		// the program holds on to the returned context and the span value
+		b.nCtx++
+		op.Cx = b.nCtx
+		b.loc.ctx = append(b.loc.ctx, op.Cx-1)
 	}
 	if len(ts) > 0 && rapid.IntRange(0, 2).Draw(b.t, "child_span") == 0 {
 		op.In, op.CSp = b.from("child_tracer", ts)+1, b.nSpans
@@ -435,14 +467,25 @@ func gen(t *rapid.T) Case {
 					ops = append(ops, b.mk("span"))
 				}
 			}
-			if g == 0 && !c.AutoOn && rapid.IntRange(0, 2).Draw(t, "tracer_from_placeholder_span") == 0 {
+			if g == 0 && !c.AutoOn && rapid.IntRange(0, 2).Draw(t, "tracer_from_placeholder_span") > 0 {
 				// a tracer obtained from the TracerProvider() of a span of a
-				// placeholder tracer
+				// placeholder tracer (span value / span in the returned context,
+				// any incoming context); the program keeps the context and, half
+				// of the time, gets a provider handle and a tracer out of it later
 				top := b.mk("tracer")
 				b.forceTD = true
 				sop := b.mkSpan(top.D, nil)
 				b.forceTD = false
 				ops = append(ops, top, sop)
+				if rapid.Bool().Draw(t, "provider_from_kept_context") {
+					pop := Op{K: "tprov", D: b.nTprov, Px: sop.Cx, TV: rapid.IntRange(0, 1).Draw(t, "from_context")}
+					b.loc.tprov = append(b.loc.tprov, b.nTprov)
+					b.nTprov++
+					trop := Op{K: "tracer", D: len(b.tracerScope), S: b.pick("scope", len(scopes)), U: pop.D}
+					b.loc.tracer = append(b.loc.tracer, trop.D)
+					b.tracerScope = append(b.tracerScope, trop.S)
+					ops = append(ops, pop, trop)
+				}
 			}
 			if g == 0 && storm {
 				// one meter with many instruments (a long meter.setDelegate) and
